@@ -753,8 +753,18 @@ def correspondence(ctx: Ctx):
 def _close(a: torch.Tensor, b: torch.Tensor, rel: float) -> bool:
     """max-norm closeness relative to the magnitude of the tensor (rounding of a cancelling sum is relative to
     its terms, not to the result)"""
+    if tuple(a.shape) != tuple(b.shape):
+        return False            # a difference in shape *is* a difference
+    if a.numel() == 0:
+        return True
     a, b = a.double(), b.double()
     return bool((a - b).abs().max() <= rel * max(a.abs().max().item(), b.abs().max().item(), 1e-30))
+
+
+def _maxdiff(a: torch.Tensor, b: torch.Tensor):
+    if tuple(a.shape) != tuple(b.shape):
+        return f"shapes {tuple(a.shape)} vs {tuple(b.shape)}"
+    return (a.double() - b.double()).abs().max().item() if a.numel() else 0.0
 
 
 def _tensor_keys(out):
@@ -804,12 +814,116 @@ def oracle_configs(ctx: Ctx, deep: bool):
     return base
 
 
+# builder parameter -> harness flag, with the values that switch the option away from its default (and exercise it)
+PARAM_TO_FLAG = {
+    "crop": ("crop", (1, 2)), "image_center_crop": ("image_center_crop", (0,)), "rescale": ("rescale", (1,)), "pad": ("pad", (1,)),
+    "padding_eps": ("padding_eps", (0,)), "estimate_body_coil_image": ("body_coil", (1,)),
+    "estimate_sensitivity_maps": ("estimate_smaps", (0,)), "sensitivity_maps_type": ("smap_type", (2,)),
+    "sensitivity_maps_gaussian": ("smap_gaussian", (1,)), "delete_acs_mask": ("delete_acs", (0,)),
+    "delete_kspace": ("delete_kspace", (0,)), "image_recon_type": ("recon", (0, 2, 3, 4, 5)), "compress_coils": ("compress_coils", (1,)),
+    "pad_coils": ("pad_coils", (1,)), "scaling_key": ("scaling_key", (1,)), "scale_percentile": ("percentile", (0,)),
+    "use_seed": ("use_seed", (0,)), "transforms_type": ("ssl", (1,)), "mask_split_keep_acs": ("keep_acs", (1,)),
+    "mask_split_type": ("split", (0, 2)),
+}
+NOT_PAIRED = {"forward_operator", "backward_operator", "mask_func",            # required arguments
+              "random_rotation_probability", "random_flip_probability", "random_reverse_probability"}   # SystemRandom: outside the quantifier
+
+
+def option_flags(ctx=None) -> list[tuple[str, tuple]]:
+    """the option flags of the builders, read off the *current* signature of build_mri_transforms through the translator's
+    classification (flag / positive / enum / crop / transforms type); a classified parameter the harness has no recipe for is
+    recorded in the evidence notes (it also breaks the `outer_params_eq` bridge)"""
+    from translate.recipes import c08 as R
+    try:
+        tr = R.Tr()
+        names = [n for n, _ in tr.params_of("build_mri_transforms")]
+    except Exception:  # noqa: BLE001  (signature not understood: fall back to the known list)
+        names = list(PARAM_TO_FLAG)
+    out = []
+    for n in names:
+        structural = (n in R.FLAGS or n in R.POSITIVE or n in R.ENUM_PARAMS or n in ("crop", "transforms_type"))
+        if not structural or n in NOT_PAIRED:
+            continue
+        if n in PARAM_TO_FLAG:
+            out.append(PARAM_TO_FLAG[n])
+        elif ctx is not None:
+            ctx.notes.append({"observation": f"builder parameter `{n}` decides the stage table but the option search has no recipe for it"})
+    return out
+
+
+def _pair_fixups(f: dict, rng) -> dict:
+    """make a flag assignment a configuration of the quantifier, changing as few of the switched-on options as possible"""
+    if f["recon"] >= 4:
+        f["estimate_smaps"] = 1
+    if not f["ssl"]:
+        f["keep_acs"] = 0
+    if f["keep_acs"]:
+        f["estimate_smaps"] = 1
+    if (f["pad"] or f["rescale"]) and f["crop"] == 1:
+        f["crop"] = 2                      # a tuple crop cannot be combined with pad / rescale (documented)
+    if f["compress_coils"] and f["estimate_smaps"] and f["smap_type"] == 2:
+        pass
+    if not f["use_seed"] and f["ssl"]:
+        f["ssl"], f["keep_acs"] = 0, 0      # the unseeded splitter draws from the OS-seeded generator: runs cannot be compared
+    return f
+
+
+def pairwise_configs(ctx, n: int):
+    """`n` configurations chosen greedily so that every *pair* of builder options is switched on together (non-default values
+    of both, inputs that exercise both) as early as possible; yields (cfg, k) for `check_config`"""
+    rng = ctx.rng
+    opts = option_flags(ctx)
+    names = [o[0] for o in opts]
+    uncovered = {(a, b) for i, a in enumerate(names) for b in names[i + 1:]}
+    for it in range(n):
+        best = None
+        dens = 0.5 if it % 2 == 0 else 0.22      # dense configurations cover pairs fast; sparse ones show a pair without the others
+        for _try in range(10):
+            f = default_flags()
+            on = [o for o in opts if rng.random() < dens]
+            for flag, values in on:
+                f[flag] = rng.choice(values)
+            f = _pair_fixups(f, rng)
+            d = default_flags()
+            active = [nm for nm in names if f[nm] != d[nm]]
+            gain = sum(1 for i, a in enumerate(active) for b in active[i + 1:] if (a, b) in uncovered or (b, a) in uncovered)
+            if best is None or gain > best[0]:
+                best = (gain, f, active)
+        _, f, active = best
+        for i, a in enumerate(active):
+            for b in active[i + 1:]:
+                uncovered.discard((a, b))
+                uncovered.discard((b, a))
+        three_d = (not f["rescale"]) and f["crop"] != 2 and rng.random() < 0.3
+        nc = rng.choice([3, 4]) if f["compress_coils"] else rng.choice([1, 2, 3])
+        ns = 3 if three_d else 0
+        h, w = rng.choice([7, 8, 9, 10]), rng.choice([7, 8, 9, 10])
+        seed = rng.randrange(2 ** 31)
+        crop_shape = [rng.randint(4, h - 1), rng.randint(4, w - 1)]
+        base_hw = crop_shape if f["crop"] else [h, w]
+        rescale_shape = [rng.choice([5, 8, 9]), rng.choice([6, 7, 10])]
+        pad_from = rescale_shape if f["rescale"] else base_hw
+        cfg = {"flags": f, "shape": [nc] + ([ns] if ns else []) + [h, w], "crop_shape": crop_shape, "seed": seed, "border": 0,
+               "zero_coil": False, "centered": rng.random() < 0.7, "percentile": rng.choice([0.99, 0.9]),
+               "pad_to": (rng.choice([1, 2]) if f["compress_coils"] else nc) + rng.choice([1, 2]),     # always more than the coils present
+               "compress_to": rng.choice([1, 2]), "rescale_shape": rescale_shape,
+               "pad_shape": [pad_from[0] + rng.choice([1, 2, 3]), pad_from[1] + rng.choice([0, 1, 4])],
+               "stale": rng.random() < 0.2, "pair": sorted(active)}
+        yield cfg, _gauss_sample(seed, nc, ns, h, w, 0, False)
+    ctx.hist["oracle/pairwise/uncovered-pairs"] = len(uncovered)
+    ctx.hist["oracle/pairwise/option-pairs"] = len(names) * (len(names) - 1) // 2
+
+
 def _guarded(gen, rep):
     """an exception of the implementation escaping from a check is a finding, not a tool failure"""
     try:
         yield from gen
     except ImplError as e:
         yield Violation("pipeline-raises", f"the composed transform raises {e}", {**rep, "observed": str(e)})
+    except (RuntimeError, ValueError, IndexError, KeyError, TypeError) as e:
+        # the relation between output keys could not even be evaluated (shapes that do not broadcast, a key that vanished)
+        yield Violation("outputs-inconsistent", f"a self-consistency relation between the outputs cannot be evaluated: "
+                        f"{type(e).__name__}: {str(e)[:200]}", {**rep, "observed": f"{type(e).__name__}: {e}"})
 
 
 def observations() -> list[dict]:
@@ -967,6 +1081,12 @@ def _oracle(ctx: Ctx, deep: bool = False):
         cfg["shape"] = list(k.shape)
         ctx.count(("oracle-opt", kind, tuple(flag_list(f)), tuple(k.shape), seed), True, bucket="oracle/option/" + kind)
         yield from _guarded(check_config(cfg, k), {"op": "pipeline", **cfg})
+    # (i-pair) option *combinations*: pairwise coverage of all builder options (read off the current signature), each with inputs
+    #          that exercise both options, and the self-consistency relations between all surviving keys
+    for cfg, k in pairwise_configs(ctx, ctx.budget(26, 400) * (3 if deep else 1)):
+        ctx.count(("oracle-pair", tuple(flag_list(cfg["flags"])), tuple(k.shape), cfg["seed"]), True,
+                  bucket="oracle/pairwise/" + str(min(len(cfg["pair"]), 9)) + "-options-on")
+        yield from _guarded(check_config(cfg, k), {"op": "pipeline", **cfg})
     # (viii) call histories on one transform object (no state kept across calls), raw input left untouched, input forms
     for i in range(ctx.budget(6, 60) * (3 if deep else 1)):
         f = {**random_flags(rng, valid_only=True), "delete_kspace": rng.choice([0, 1])}
@@ -1118,6 +1238,58 @@ def add_stale(sample: dict, shape) -> dict:
     return sample
 
 
+PER_COIL = ("kspace", "masked_kspace", "input_kspace", "sensitivity_map")
+MASKS = ("sampling_mask", "acs_mask", "padding", "input_sampling_mask", "target_sampling_mask")
+
+
+def check_relations(out: dict, f: dict, three_d: bool, rep: dict, tag=""):
+    """Self-consistency between ALL surviving tensor entries of one output sample, shapes first: every per-coil entry
+    (fully sampled / masked / input k-space, sensitivity map) has one and the same shape; masks have the spatial shape of the
+    k-space and singleton axes elsewhere; the target has the spatial shape (and the coil axis only for `ifft`); the masked
+    k-space vanishes outside the sampling mask and equals the k-space inside; zero coils of the k-space are zero coils of
+    the masked k-space and of the map."""
+    t = {str.__str__(kk): v for kk, v in out.items() if isinstance(v, torch.Tensor)}
+    coil = [(kk, t[kk]) for kk in PER_COIL if kk in t]
+    if not coil:
+        return
+    ref_key, ref = coil[0]
+    for kk, v in coil[1:]:
+        if tuple(v.shape) != tuple(ref.shape):
+            yield Violation("outputs-inconsistent-shape-" + kk, f"{tag}`{kk}` has shape {tuple(v.shape)} but `{ref_key}` has {tuple(ref.shape)}",
+                            {**rep, "keys": [ref_key, kk], "shapes": [list(ref.shape), list(v.shape)]})
+            return
+    sp = tuple(ref.shape[-3:-1])
+    lead = tuple(ref.shape[1:-3])          # slice axis of a 3-D sample
+    for kk in MASKS:
+        if kk in t:
+            m = t[kk]
+            if tuple(m.shape[-3:-1]) != sp or m.shape[-1] != 1 or any(n not in (1,) + lead for n in m.shape[:-3]):
+                yield Violation("outputs-inconsistent-shape-" + kk, f"{tag}`{kk}` has shape {tuple(m.shape)} but `{ref_key}` has {tuple(ref.shape)}",
+                                {**rep, "keys": [ref_key, kk], "shapes": [list(ref.shape), list(m.shape)]})
+                return
+    if "target" in t:
+        r = RECON[f["recon"]]
+        want = {"ifft": tuple(ref.shape), "complex": lead + sp + (2,), "sense": lead + sp + (2,)}.get(r, lead + sp)
+        if tuple(t["target"].shape) != want:
+            yield Violation("outputs-inconsistent-shape-target", f"{tag}`target` has shape {tuple(t['target'].shape)}, `{ref_key}` "
+                            f"{tuple(ref.shape)} and reconstruction `{r}` give {want}", {**rep, "expected": list(want)})
+    if "body_coil_image" in t and tuple(t["body_coil_image"].shape) != lead + sp:
+        yield Violation("outputs-inconsistent-shape-body_coil_image", f"{tag}`body_coil_image` has shape {tuple(t['body_coil_image'].shape)}, "
+                        f"expected {lead + sp}", rep)
+    for mk, kk in (("sampling_mask", "masked_kspace"), ("input_sampling_mask", "input_kspace")):
+        if mk in t and kk in t and bool((t[kk] * (~t[mk])).abs().max() > 0):
+            yield Violation("masked-nonzero-outside-mask", f"{tag}`{kk}` is not zero outside `{mk}`", rep)
+    if "kspace" in t and "masked_kspace" in t and "sampling_mask" in t:
+        if not torch.equal(t["masked_kspace"], t["kspace"] * t["sampling_mask"]):
+            yield Violation("masked-not-mask-of-normalised", f"{tag}masked_kspace != sampling_mask x kspace (max diff "
+                            f"{_maxdiff(t['masked_kspace'], t['kspace'] * t['sampling_mask'])})", rep)
+    if "sensitivity_map" in t and "masked_kspace" in t:
+        zero_coils = t["masked_kspace"].reshape(ref.shape[0], -1).abs().sum(1) == 0
+        full_zero = (t["kspace"].reshape(ref.shape[0], -1).abs().sum(1) == 0) if "kspace" in t and not f["ssl"] else None
+        if full_zero is not None and bool((full_zero & ~zero_coils).any()):
+            yield Violation("outputs-inconsistent-zero-coils", f"{tag}a coil that is zero in `kspace` is not zero in `masked_kspace`", rep)
+
+
 def check_config(cfg, k: np.ndarray):
     import direct.data.transforms as T
     from direct.data.mri_transforms import ComputeImage
@@ -1153,6 +1325,7 @@ def check_config(cfg, k: np.ndarray):
         if kk not in base:
             yield Violation("missing-output-" + kk, f"the output lacks `{kk}`", {**rep, "missing": [kk]})
             return
+    yield from check_relations(base, f, three_d, rep)
     # (i) scaling by 2^k bit-exact, arbitrary positive reals to 1e-4
     for kpow in (-14, 1, 12):
         sc = 2.0 ** kpow
@@ -1182,9 +1355,18 @@ def check_config(cfg, k: np.ndarray):
     # magnitude (the safe division guards exact zeros only): the map — and a SENSE target — is not stable under a
     # non-dyadic scale there (recorded observation); bit-exactness under 2^k is still required above
     unstable = {"sensitivity_map"} | ({"target"} if f["recon"] >= 4 else set()) if f["pad"] else set()
+    # the sensitivity map is a quotient by the local signal: at the few pixels where the ACS image nearly vanishes (two ACS
+    # columns beat against each other, a single compressed coil, …) rounding is amplified without bound.  Under a non-dyadic
+    # scale it is therefore judged on all but 2 % of its entries (a real defect moves all of them); 2^k stays bit-exact.
+    illcond = {"sensitivity_map"} | ({"target"} if f["recon"] >= 4 else set())
     for kk in NORMALISED:
         if kk in unstable:
             continue
+        if kk in illcond and kk in base and kk in o and isinstance(base[kk], torch.Tensor) and base[kk].shape == o[kk].shape:
+            dd = (base[kk].double() - o[kk].double()).abs()
+            scale_ = max(float(base[kk].abs().max()), 1e-30)
+            if float((dd > 1e-3 * scale_).double().mean()) <= 0.02:
+                continue
         if kk in base and isinstance(base[kk], torch.Tensor):
             if kk not in o or base[kk].shape != o[kk].shape or not _close(base[kk], o[kk], 1e-4):
                 yield Violation("equivariance-real-" + kk, f"`{kk}` changes under scaling by {sc}",
@@ -1203,11 +1385,15 @@ def check_config(cfg, k: np.ndarray):
         yield Violation("missing-output-" + missing[0], f"with delete_kspace=False the output lacks {missing}",
                         {**rep, "missing": missing})
         return
+    shape_bad = list(check_relations(full, f, three_d, rep, tag="with delete_kspace=False: "))
+    if shape_bad:
+        yield from shape_bad
+        return
     if not f["ssl"]:
         kn = full["kspace"]
         exp_masked, _ = T.apply_mask(kn, full["sampling_mask"])
         if not torch.equal(full["masked_kspace"], exp_masked):
-            d = (full["masked_kspace"] - exp_masked).abs().max().item()
+            d = _maxdiff(full["masked_kspace"], exp_masked)
             yield Violation("masked-not-mask-of-normalised", f"masked_kspace != apply_mask(kspace, sampling_mask) (max diff {d})",
                             {**rep, "max_abs_diff": d})
         if not f["delete_kspace"] is None and "masked_kspace" in base and not torch.equal(base["masked_kspace"], full["masked_kspace"]):
